@@ -113,6 +113,7 @@ type HarnessReport struct {
 	Steps        int64
 	Asserts      int64
 	Violations   []Violation
+	AltViolations map[string][]Violation
 	Reached      map[string]*Sample
 	Problems     []string // budget / unsupported / internal
 	Unknowns     int64
@@ -775,6 +776,14 @@ func (e *Engine) Explore(h *Harness) *HarnessReport {
 				if !violByLabel[v.Label] {
 					violByLabel[v.Label] = true
 					rep.Violations = append(rep.Violations, v)
+				} else if len(rep.AltViolations[v.Label]) < 12 {
+					// further witnesses of the same assertion: tried by the replay
+					// step when the first one depends on a modelling freedom the
+					// native run does not take (e.g. which waiter Signal wakes)
+					if rep.AltViolations == nil {
+						rep.AltViolations = map[string][]Violation{}
+					}
+					rep.AltViolations[v.Label] = append(rep.AltViolations[v.Label], v)
 				}
 			}
 			for _, l := range res.Reached {
